@@ -1270,7 +1270,7 @@ Proof. vm_compute. repeat split; reflexivity. Qed.
 (* module mm: abstract interface; subroutine cb(x); use zf; type(ta) :: x   module zf: use za *)
 Definition w_za : module := mkM "za" Public [mkD "ta" KType Public; mkD "pa" KProc Public] [] [].
 Definition w_uncounted : graph :=
-  [mkMn "mm" Public [mkD "cb" KAbs Public] [] [] [mkS ["cb"] [NAbsBody] [] [mkU "zf" None []]];
+  [mkMn "mm" Public [mkD "cb" KAbs Public] [] [] [mkS ["cb"%string] [NAbsBody] [] [mkU "zf" None []]];
    mkM "zf" Public [] [] [mkU "za" None []];
    w_za].
 Definition nested_refuted_in (g : graph) : Prop :=
@@ -1280,20 +1280,20 @@ Definition nested_refuted_in (g : graph) : Prop :=
 Lemma refuted_uncounted : nested_refuted_in w_uncounted.
 Proof.
   exists [s "mm"; s "za"; s "zf"], CType, (nth 0 w_uncounted w_za),
-         (mkS ["cb"] [NAbsBody] [] [mkU "zf" None []]).
+         (mkS ["cb"%string] [NAbsBody] [] [mkU "zf" None []]).
   repeat split; try (vm_compute; reflexivity); try (simpl; auto; fail).
   intros D. specialize (D (s "ta") (s "za", s "ta")). destruct D as [_ D].
   assert (H : in_b (s "ta") (s "za", s "ta")
                 (nested_imports CType w_uncounted (nth 0 w_uncounted w_za)
-                   (mkS ["cb"] [NAbsBody] [] [mkU "zf" None []])) = true) by (vm_compute; reflexivity).
+                   (mkS ["cb"%string] [NAbsBody] [] [mkU "zf" None []])) = true) by (vm_compute; reflexivity).
   apply in_b_In in H. apply D in H. vm_compute in H. discriminate.
 Qed.
 
 Definition ex_gn : graph :=
   ex_g ++ [mkMn "me" Public [mkD "pe" KProc Public] [] []
-             [mkS ["pe"] [NRoutine] [mkD "vl" KVar Public] [mkU "md" (Some [(s "tl", s "tl")]) []];
-              mkS ["pe"; "qe"] [NRoutine; NRoutine] [] [mkU "mc" None []];
-              mkS ["pe"; "ext"] [NRoutine; NIfBody] [] [mkU "mb" (Some [(s "vq", s "vb1")]) []]]].
+             [mkS ["pe"%string] [NRoutine] [mkD "vl" KVar Public] [mkU "md" (Some [(s "tl", s "tl")]) []];
+              mkS ["pe"%string; "qe"%string] [NRoutine; NRoutine] [] [mkU "mc" None []];
+              mkS ["pe"%string; "ext"%string] [NRoutine; NIfBody] [] [mkU "mb" (Some [(s "vq", s "vb1")]) []]]].
 Definition ex_on := ex_o1 ++ [s "me"].
 Example ex_nested_hypotheses :
   wf_graph ex_gn = true /\ no_region ex_gn = true /\ topo_b ex_gn ex_on = true /\
